@@ -302,6 +302,25 @@ static void dump_node(const config_setting_t *s, const config_setting_t *parent,
   put_hs(s->file);
   fputc('\n', out);
 
+  /* every public accessor of a setting answers what the structure holds */
+  {
+    config_t *owner = dump_owner ? dump_owner : &cfg;
+    int t = s->type;
+    if(config_setting_get_hook(s) != s->hook) queries_ok = 0;
+    if(config_setting_name(s) != s->name) queries_ok = 0;
+    if(config_setting_type(s) != t) queries_ok = 0;
+    if(config_setting_parent(s) != parent) queries_ok = 0;
+    if(config_setting_source_line(s) != s->line) queries_ok = 0;
+    if(config_setting_source_file(s) != s->file) queries_ok = 0;
+    if(config_setting_get_format(s) != (s->format != 0 ? s->format : owner->default_format)) queries_ok = 0;
+    if(!!config_setting_is_group(s) != (t == CONFIG_TYPE_GROUP)) queries_ok = 0;
+    if(!!config_setting_is_array(s) != (t == CONFIG_TYPE_ARRAY)) queries_ok = 0;
+    if(!!config_setting_is_list(s) != (t == CONFIG_TYPE_LIST)) queries_ok = 0;
+    if(!!config_setting_is_aggregate(s) != (t == CONFIG_TYPE_GROUP || t == CONFIG_TYPE_ARRAY || t == CONFIG_TYPE_LIST)) queries_ok = 0;
+    if(!!config_setting_is_number(s) != (t == CONFIG_TYPE_INT || t == CONFIG_TYPE_INT64 || t == CONFIG_TYPE_FLOAT)) queries_ok = 0;
+    if(!!config_setting_is_scalar(s) != (t == CONFIG_TYPE_INT || t == CONFIG_TYPE_INT64 || t == CONFIG_TYPE_FLOAT
+                                          || t == CONFIG_TYPE_BOOL || t == CONFIG_TYPE_STRING)) queries_ok = 0;
+  }
   /* pointer-level facts the functional model cannot express */
   if(s->parent != parent) links_ok = 0;
   if(s->config != (dump_owner ? dump_owner : &cfg)) links_ok = 0;
@@ -346,6 +365,24 @@ static void dump(void)
   links_ok = queries_ok = 1;
   if(!cfg.root) { fputs("T destroyed\n", out); return; }
   dump_node(cfg.root, NULL, path, 0);
+  /* ... and so does every public accessor of the configuration */
+  if(config_root_setting(&cfg) != cfg.root) queries_ok = 0;
+  if(config_get_hook(&cfg) != cfg.hook) queries_ok = 0;
+  if(config_get_include_dir(&cfg) != cfg.include_dir) queries_ok = 0;
+  if(config_get_options(&cfg) != cfg.options) queries_ok = 0;
+  if(!!config_get_auto_convert(&cfg) != !!(cfg.options & CONFIG_OPTION_AUTOCONVERT)) queries_ok = 0;
+  if(!!config_get_option(&cfg, CONFIG_OPTION_FSYNC) != !!(cfg.options & CONFIG_OPTION_FSYNC)) queries_ok = 0;
+  if(config_get_tab_width(&cfg) != cfg.tab_width) queries_ok = 0;
+  if(config_get_float_precision(&cfg) != cfg.float_precision) queries_ok = 0;
+  if(config_get_default_format(&cfg) != cfg.default_format) queries_ok = 0;
+  if(config_error_type(&cfg) != cfg.error_type || config_error_text(&cfg) != cfg.error_text
+     || config_error_file(&cfg) != cfg.error_file || config_error_line(&cfg) != cfg.error_line) queries_ok = 0;
+  if(cfg.root && cfg.root->type == CONFIG_TYPE_GROUP && cfg.root->value.list)
+    for(unsigned i = 0; i < cfg.root->value.list->length; i++)
+    {
+      const config_setting_t *k = cfg.root->value.list->elements[i];
+      if(k->name && config_lookup_const(&cfg, k->name) != config_lookup(&cfg, k->name)) queries_ok = 0;
+    }
   fprintf(out, "A %d %u %u %u ", cfg.options, (unsigned)cfg.tab_width, (unsigned)cfg.float_precision,
           (unsigned)cfg.default_format);
   put_hs(cfg.include_dir);
@@ -641,7 +678,13 @@ static int run_line(char *line)
   if(n == 1 && IS("destroy")) { config_destroy(&cfg); live = 0; r_unit(); return 0; }
 #endif
   if(n == 2 && IS("options")) { config_set_options(&cfg, (int)parse_num(tok[1])); r_unit(); return 0; }
-  if(n == 3 && IS("option")) { config_set_option(&cfg, (int)parse_num(tok[1]), (int)parse_num(tok[2])); r_unit(); return 0; }
+  if(n == 3 && IS("option"))
+  {
+    int bit = (int)parse_num(tok[1]), flag = (int)parse_num(tok[2]);
+    if(bit == CONFIG_OPTION_AUTOCONVERT) config_set_auto_convert(&cfg, flag);    /* the dedicated accessor */
+    else config_set_option(&cfg, bit, flag);
+    r_unit(); return 0;
+  }
   if(n == 2 && IS("getoption")) { r_int(config_get_option(&cfg, (int)parse_num(tok[1]))); return 0; }
   if(n == 2 && IS("tab")) { config_set_tab_width(&cfg, (unsigned short)parse_num(tok[1])); r_unit(); return 0; }
   if(n == 2 && IS("prec")) { config_set_float_precision(&cfg, (unsigned short)parse_num(tok[1])); r_unit(); return 0; }
